@@ -135,6 +135,7 @@ fn cmd_reader(job: &Value) {
             log_data: j["log_data"].as_bool().unwrap_or(false),
             seekable: j["seekable"].as_bool().unwrap_or(true),
             branch_ops: j["branch_ops"].as_array().cloned().unwrap_or_default(),
+            fault_at: 0,
         };
         if let Some(seqs) = j["seqs"].as_array() {
             for s in seqs {
@@ -162,7 +163,10 @@ fn cmd_reader(job: &Value) {
                 }
                 let ops = random_ops(&mut rng, fe, cfg.frames, run.unit(), len, run.seekable);
                 run_id += 1;
+                // every third seekable random history meets one transient source fault somewhere behind the metadata
+                run.fault_at = if run.seekable && r["faults"].as_bool().unwrap_or(false) && run_id % 3 == 0 { 2 + rng.below(40) as usize } else { 0 };
                 run.execute(&ops, &mut t, run_id);
+                run.fault_at = 0;
             }
         }
     }
